@@ -411,10 +411,6 @@ Proof.
   destruct (H u r Ha) as [H1 H2]. destruct Hu; contradiction.
 Qed.
 
-Lemma ws_is_secure_spec a :
-  ws_is_secure a = true <-> exists u r, a = u ++ s_sep ++ r /\ map lower u = sch_wss.
-Proof. apply has_url_scheme_spec. Qed.
-
 (* which of the host forms can carry a scheme *)
 Definition starts_w (x : str) : bool :=
   match x with c :: _ => N.eqb (lower c) 119 | [] => false end.
